@@ -70,6 +70,14 @@ def axis_rotation(axis, angle):
     return np.array([[c, -s, 0], [s, c, 0], [0, 0, 1]], dtype=np.float64)
 
 
+def axis_angle_rotation(axis, angle):
+    """Rodrigues: right-handed rotation by `angle` about the direction `axis` (any length)."""
+    k = np.asarray(axis, dtype=np.float64)
+    k = k / np.sqrt(np.sum(k * k))
+    K = np.array([[0, -k[2], k[1]], [k[2], 0, -k[0]], [-k[1], k[0], 0]], dtype=np.float64)
+    return np.eye(3) + np.sin(angle) * K + (1.0 - np.cos(angle)) * (K @ K)
+
+
 def perturbations(angle=0.02, shift=0.02):
     """48 small rigid motions: {identity, +-angle about x, y, z} x {zero, +-shift along x, y, z}
     without (identity, zero).  Returns (rotations (48,3,3), shifts (48,3))."""
